@@ -16,7 +16,13 @@ func runSyncCase(o *hx.Out, spec gsx.SyncSpec) {
 	}
 }
 
-func genSync(o *hx.Out, r *hx.Rng, n int) {
+func genSync(o *hx.Out, r *hx.Rng, n int, long int) {
+	if long > 0 { // a slow link that recovers: the downloader's accumulated slack lets it burst above its nominal pace
+		runSyncCase(o, gsx.SyncSpec{N: 4, Prefix: 2, Own: 1, Peer: 150, HCB: "honest", Corrupt: -1, ErrAfter: -1, Batch: 1, SlowFirst: 15})
+	}
+	for i := 0; i < long; i++ { // long honest syncs, one block per response: several rate-limiter intervals
+		runSyncCase(o, gsx.SyncSpec{N: 4, Prefix: 2, Own: 1, Peer: 270 + 10*i, HCB: "honest", Corrupt: -1, ErrAfter: -1, Batch: 1})
+	}
 	fixed := []gsx.SyncSpec{
 		// honest better peer, fast sync
 		{N: 4, Prefix: 3, Own: 2, Peer: 4, HCB: "honest", Corrupt: -1, ErrAfter: -1},
@@ -59,6 +65,8 @@ func genSync(o *hx.Out, r *hx.Rng, n int) {
 		// the block's generator is not a current validator: no fast sync although the heights are close
 		{N: 4, Prefix: 3, Own: 2, Peer: 4, HCB: "honest", Corrupt: -1, ErrAfter: -1, NonValidator: true},
 		{N: 4, Prefix: 12, Own: 1, Peer: 3, Full: true, Recent: true, HCB: "honest", Corrupt: -1, ErrAfter: -1, NonValidator: true},
+		// an honest peer serving ONE block per response: the sync issues a request per block at the downloader's own pace
+		{N: 4, Prefix: 2, Own: 1, Peer: 34, HCB: "honest", Corrupt: -1, ErrAfter: -1, Batch: 1},
 		// recent finality, far apart: nothing is done (neither mechanism applies)
 		{N: 4, Prefix: 12, Own: 0, Peer: 10, Full: true, Recent: true, HCB: "honest", Corrupt: -1, ErrAfter: -1},
 		// failed block sync, then an honest fast sync
